@@ -124,6 +124,39 @@ theorem implicit_exact_tree_of_B (X : SchemaX) (o : VOpts) (t : List DNode) (hno
   exact implicit_exact_tree X o t hno hq (choiceSchema_of_B X hS) hT.1.1.1.1.1 hT.1.1.1.1.2 hT.1.1.1.2
     ⟨selOk_of_B _ _ _ hT.1.1.2, selOkL_of_B X _ t hT.1.2⟩ hT.2 hpe
 
+/-! ## trees that are not fresh -/
+
+/-- schema of the witness: `leaf-list ll { default "a"; default "b"; }` -/
+def Sll : Schema := { modName := "m", nodes := [{ depth := 0, kind := .leaflist, name := "ll", dflts := [[97], [98]] }] }
+def Xll : SchemaX := { SchemaX.ofSchema Sll with q := Quirks.fixed }
+/-- the default instance `b` alone: what is left when the client removes the default instance `a` with `lyd_free_tree` -/
+def tll : List DNode := [.term 0 { dflt := true } [] [98]]
+
+/-- **full strength for NON-fresh trees, false**: "every validated tree is the RFC completion of its own explicit part"
+(`rfcComplete T = T` for `T = validate t`, every REACHABLE `t`) does not hold — a history may remove a default-flagged node: build nothing,
+validate (`ll` = a, b, both default), free the instance `a`, validate: the tree `[b (default)]` is a fixpoint (the leaf-list has an instance,
+nothing is created), but its explicit part is empty and the RFC puts BOTH defaults in use.  (Not a defect of the validation: the client
+deleted implicit data.)  So the statement for non-fresh trees needs a hypothesis on the history — the edits touch explicit nodes only — and the
+invariant that default-flagged nodes are exactly the completion of the explicit part; the law `implicit` of tools/checks/c07.py evaluates it
+on histories whose edits are of that kind. -/
+theorem implicit_exact_tree_nonfresh_fails :
+    ¬ ∀ (X : SchemaX) (o : VOpts) (t : List DNode), X.q = Quirks.fixed → Reachable X o t →
+      obsL X.base (validate X o t).tree = obsL X.base (rfcComplete X o (validate X o t).tree) := by
+  intro h
+  have hd : (applyDelete Sll [.value 0 [97]] (validate Xll {} (freshL Sll [])).tree).map (beqL tll) = some true := by decide +kernel
+  cases ha : applyDelete Sll [.value 0 [97]] (validate Xll {} (freshL Sll [])).tree with
+  | none => rw [ha] at hd; cases hd
+  | some t2 =>
+    rw [ha] at hd
+    simp only [Option.map_some, Option.some.injEq] at hd
+    have ht : tll = t2 := beqL_eq _ _ hd
+    subst ht
+    have hr : Reachable Xll {} tll := Reachable.delete (t := (validate Xll {} (freshL Sll [])).tree) [.value 0 [97]]
+      (Reachable.validate (Reachable.fresh [])) ha
+    have := congrArg List.length (h Xll {} tll rfl hr)
+    revert this
+    decide +kernel
+
 /-! ## not proved
 
 -- (`implicit_exact_tree` WITH `choice` / `case` on fresh data: proved above.)
